@@ -53,6 +53,14 @@ func NewCaptivePortal(uri string) (*CaptivePortal, error) {
 		return nil, err
 	}
 
+	// A URI which passes the check above may still be too long to fit in a
+	// single NDP option. Verify that the option can be encoded now, rather than
+	// failing to send every router advertisement later.
+	ra := &ndp.RouterAdvertisement{Options: []ndp.Option{cp}}
+	if _, err := ndp.MarshalMessage(ra); err != nil {
+		return nil, fmt.Errorf("captive portal URI %q cannot be encoded in an NDP option: %v", uri, err)
+	}
+
 	return &CaptivePortal{Portal: cp}, nil
 }
 
